@@ -26,6 +26,7 @@ structure EnvRel (I : Interp) (env : Env) (p : Evm.Params) (f : Evm.Frame) : Pro
   address : env.address.WF ∧ env.address.width ≤ 256 ∧ env.address.eval I = f.this
   cd : ∀ off, (env.cd off).WF ∧ (env.cd off).width = 256 ∧
         (env.cd off).eval I = Evm.bytesToNat (Evm.readBytes f.calldata off 32)
+  cdByte : ∀ i, (env.cdByte i).WF ∧ (env.cdByte i).width = 8 ∧ (env.cdByte i).eval I = (f.calldata[i]?).getD 0
   cdSize : env.cdSize = f.calldata.length
 
 /-- the valuation `I` satisfies every path condition -/
@@ -160,7 +161,7 @@ theorem StackRel.take_drop {I ss cs} (h : StackRel I ss cs) (n : Nat) :
 theorem EnvRel.congr {I env p f f'} (h : EnvRel I env p f) (h1 : f'.caller = f.caller) (h2 : f'.value = f.value)
     (h3 : f'.this = f.this) (h4 : f'.calldata = f.calldata) : EnvRel I env p f' :=
   ⟨by rw [h1]; exact h.caller, h.origin, by rw [h2]; exact h.callvalue, by rw [h3]; exact h.address,
-   by rw [h4]; exact h.cd, by rw [h4]; exact h.cdSize⟩
+   by rw [h4]; exact h.cd, by rw [h4]; exact h.cdByte, by rw [h4]; exact h.cdSize⟩
 
 theorem SubstOk.same {I : Interp} {st st' : SState} (h : SubstOk I st) (hs : st'.subst = st.subst)
     (hp : st'.path = st.path) : SubstOk I st' := by
